@@ -481,8 +481,8 @@ def accepted_corpus():
     ]}
     c["mixed"] = {"config": {"register_address_type": "u8", "command_address_type": "u16", "buffer_address_type": "u32",
                              "default_byte_order": "LE"}, "objects": [
-        BLK("Bar", [REG("Foo", 0, 24, [F("value0", "bool", 0, 1, description="This is a bool!"), F("value1", "uint", 1, 16),
-                                      F("value2", "int", 16, 24)], description="This is the Foo register")],
+        BLK("Bar", [REG("Foo", 0, 24, [F("value_x", "bool", 0, 1, description="This is a bool!"), F("value_y", "uint", 1, 16),
+                                      F("value_z", "int", 16, 24)], description="This is the Foo register")],
             address_offset=10, repeat={"count": 2, "stride": 20}),
         CMD("InOut", 3, size_bits_in=16, fields_in=[F("val", "uint", 0, 16)], size_bits_out=8, fields_out=[F("val", "uint", 0, 8)],
             description="A command with inputs and outputs"),
@@ -502,7 +502,7 @@ def accepted_corpus():
 def _dangling_regs(n, with_real=True):
     objs = [REG("Real", 0, 8, [F("v", "uint", 0, 8)])] if with_real else []
     for i in range(n):
-        objs.append(REF("R%s" % chr(65 + i), "register", "X%d" % (i + 1), address=10 + i))
+        objs.append(REF("R%s" % chr(97 + i), "register", "X%d" % (i + 1), address=10 + i))
     return objs
 
 
